@@ -501,7 +501,16 @@ def replay_pairs(items, mode):
         if mode == 'gq':
             import droop.values.guarded as gm
             stats = (gm.Guarded.maxDiff, gm.Guarded.minDiff)
-        EB, pB, excB = count_concrete(it['textB'], it['optionsB'])
+        if mode == 'twice' and excA is None:
+            # the same profile object again, in a fresh Election
+            from droop.election import Election
+            EB, pB, excB = Election(pA, dict(it['optionsB'])), pA, None
+            try:
+                EB.count()
+            except Exception as ex:     # noqa
+                excB = ex
+        else:
+            EB, pB, excB = count_concrete(it['textB'], it['optionsB'])
         kw = dict(it.get('kw') or {})
         if excA or excB:
             out.append('exception A=%r B=%r' % (excA, excB))
